@@ -8,6 +8,8 @@ mod checks_codec;
 mod checks_conc;
 mod conc;
 mod lin;
+mod miri;
+mod tsan;
 mod codec;
 mod checks_seq;
 mod checks_seq2;
@@ -185,6 +187,26 @@ fn main() {
     let code = match cmd {
         "check" => run_check(args.get(2).map(|s| s.as_str()).unwrap_or(""), tier, seed),
         "replay" => replay(args.get(2).map(|s| s.as_str()).unwrap_or("")),
+        "mini" => checks_conc::mini(
+            args.get(2).and_then(|s| s.parse().ok()).unwrap_or(1),
+            args.get(3).and_then(|s| s.parse().ok()).unwrap_or(2),
+        ),
+        "stress-queue" => {
+            // used by the ThreadSanitizer build: hammer the queue and a few level programs
+            let mut rep = Report::new("C08", Tier::Quick, seed, "exploration");
+            checks_conc::run_queue_e2(
+                &mut rep,
+                args.get(2).and_then(|s| s.parse().ok()).unwrap_or(8),
+                args.get(3).and_then(|s| s.parse().ok()).unwrap_or(20_000),
+            );
+            let c = checks_conc::mini(seed, 200);
+            println!("STRESS-QUEUE violations={} mini={}", rep.total_violations, c);
+            if rep.total_violations > 0 || c != 0 {
+                1
+            } else {
+                0
+            }
+        }
         "parse-one" => checks_codec::parse_one(args.get(2).map(|s| s.as_str()).unwrap_or("")),
         _ => {
             eprintln!("usage: plv check <ID> [--tier quick|thorough] [--seed N] | plv replay <path>");
